@@ -61,6 +61,56 @@ pub fn handle(op: &str, req: &Value) -> Option<Value> {
             }
             json!({"problems": bad, "violates": !bad.is_empty()})
         },
+        // C06 Q2: three embeddings, an index built and cached, one mutator, one search: no deleted key, and an overwritten vector
+        // is found by its new direction
+        "vector_stale_index" => {
+            use vector_engine::{VectorCollectionConfig, VectorEngine};
+            let m = req["mutator"].as_str().unwrap_or("");
+            let in_coll = matches!(m, "store_in_collection_with_metadata" | "delete_from_collection" | "delete_collection");
+            let e = VectorEngine::new();
+            let vs = [("a", vec![1.0f32, 0.0, 0.0]), ("b", vec![0.0, 1.0, 0.0]), ("c", vec![0.0, 0.0, 1.0])];
+            if in_coll { let _ = e.create_collection("c", VectorCollectionConfig::default()); }
+            for (k, v) in &vs {
+                let r = if in_coll { e.store_in_collection("c", k, v.clone()) } else { e.store_embedding(k, v.clone()) };
+                if let Err(err) = r { return Some(json!({"error": err.to_string()})); }
+            }
+            let coll = if in_coll { "c" } else { "_default" };
+            if in_coll {
+                // no builder for named collections: the index is filled by hand, positions map to the storage keys
+                let idx = tensor_store::HNSWIndex::new();
+                let mut keys = vec![];
+                for (k, v) in &vs { idx.insert(v.clone()); keys.push(format!("coll:c:emb:{k}")); }
+                e.cache_hnsw_index(coll, std::sync::Arc::new(idx), keys);
+            } else {
+                match e.build_hnsw_index(tensor_store::HNSWConfig::default()) { Ok((idx, keys)) => e.cache_hnsw_index(coll, std::sync::Arc::new(idx), keys), Err(err) => return Some(json!({"error": err.to_string()})) }
+            }
+            let mut overwritten = false;
+            let r = match m {
+                "store_embedding" => { overwritten = true; e.store_embedding("a", vec![0.0, 1.0, 0.0]) }
+                "store_embedding_with_metadata" => { overwritten = true; e.store_embedding_with_metadata("a", vec![0.0, 1.0, 0.0], std::collections::HashMap::new()) }
+                "store_in_collection_with_metadata" => { overwritten = true; e.store_in_collection_with_metadata("c", "a", vec![0.0, 1.0, 0.0], std::collections::HashMap::new()) }
+                "delete_embedding" => e.delete_embedding("a"),
+                "delete_from_collection" => e.delete_from_collection("c", "a"),
+                "batch_delete_embeddings" => e.batch_delete_embeddings(vec!["a".to_string()]).map(|_| ()),
+                "clear" => e.clear().map(|_| ()),
+                "delete_collection" => e.delete_collection("c"),
+                _ => return Some(json!({"error": "unknown mutator"})),
+            };
+            if let Err(err) = r { return Some(json!({"error": err.to_string()})); }
+            let hits = if in_coll { e.search_in_collection("c", &[1.0, 0.0, 0.0], 3) } else { e.search_similar(&[1.0, 0.0, 0.0], 3) };
+            let mut bad: Vec<String> = vec![];
+            match hits {
+                Ok(hits) => {
+                    for h in &hits {
+                        if h.key == "a" && !overwritten { bad.push(format!("deleted key a is returned (score {})", h.score)); }
+                        if h.key == "a" && overwritten && h.score > 0.5 { bad.push(format!("overwritten key a is returned with the score of its old vector ({})", h.score)); }
+                        if matches!(m, "clear" | "delete_collection") { bad.push(format!("key {} returned after {m}", h.key)); }
+                    }
+                }
+                Err(err) => { if m != "delete_collection" { bad.push(format!("search failed: {err}")); } }
+            }
+            json!({"problems": bad, "violates": !bad.is_empty()})
+        },
         "dijkstra_cmp" => {
             let g = |n: &str| (f64::from_bits(hexu(&req[n]["cost_bits"])), req[n]["node_id"].as_u64().unwrap_or(0));
             let (a, b, c) = (g("a"), g("b"), g("c"));
